@@ -163,6 +163,13 @@ theorem C06_estimate_inside_value {cs : List (Incomplete × Rat)} {e : Estimate}
     exact sumEval_value _ _ _ _ (fun c hc => by obtain ⟨v, hv⟩ := (key c hc).1 (hcp c hc); exact ⟨v, by rw [hv]⟩)
   · exact gibbs_value (s := fun _ => e.SoR T) (vH (fun c hc => (hb c hc).1)) (vS (fun c hc => (hb c hc).2))
 
+/-- The model's `internal` outcome (an `AttributeError` on a missing `_correlation`) never occurs for constructed
+correlations, so every error the theorems above speak of is one of the documented exception classes. -/
+theorem C06_no_internal_error {ip : Interp} {Href Sref : Option Rat} {cp : List Pt} {Tref : Rat} {range : Option Range}
+    {c : Incomplete} (hmk : Incomplete.mk ip Href Sref cp Tref range = .ok c) (T : Rat) :
+    (c.CpoR T).1 ≠ .error .internal ∧ (c.HoRT T).1 ≠ .error .internal ∧ (c.SoR T).1 ≠ .error .internal :=
+  Incomplete.no_internal (Incomplete.mk_wf hmk).1 T
+
 /-- **Table obligation** (regenerated from the loaded libraries on every run): every group of every shipped library
 declares a range with positive lower end that contains its reference temperature and its tabulated span — the
 hypotheses `0 < lo` / "declares a range" of T4 hold for all shipped data, and the constructor guards pass. -/
